@@ -2343,7 +2343,10 @@ func (app *App) stopActiveNodeOptimization(oldMaster string, activeNodes []strin
 
 	var nodes []*mysql.Node
 	for _, hostname := range activeNodes {
-		nodes = append(nodes, app.cluster.Get(hostname))
+		// active list may still name a host which was removed from the registry
+		if node := app.cluster.Get(hostname); node != nil {
+			nodes = append(nodes, node)
+		}
 	}
 
 	return app.optController.DisableAll(
